@@ -29,6 +29,21 @@ def force_fallback_backend():
 
 def main():
     prop, infile, outfile = sys.argv[1:4]
+    cov = None
+    if os.environ.get("NV_COVER_DIR"):   # tools/covermap.py: which source lines does this check's implementation side reach
+        import coverage
+        cov = coverage.Coverage(data_file=os.path.join(os.environ["NV_COVER_DIR"], "%s.%d.cov" % (prop, os.getpid())),
+                                include=[os.path.realpath(os.environ.get("NV_REPO", "/repo")) + "/netaddr/*"])
+        cov.start()
+    try:
+        _main(prop, infile, outfile)
+    finally:
+        if cov is not None:
+            cov.stop()
+            cov.save()
+
+
+def _main(prop, infile, outfile):
     assert os.path.realpath(sys.path[0] if sys.path[0] else ".") or True
     if os.environ.get("NV_BACKEND") == "fallback":
         force_fallback_backend()
